@@ -110,3 +110,81 @@ Proof.
   vm_compute. split; [reflexivity|]. split; [reflexivity|].
   eexists. split; [reflexivity|]. split; [reflexivity | discriminate].
 Qed.
+
+(* (4) seeded change C09-3: rest.WithPrefix rewrites Route.Path IN PLACE on the slice the group
+   holds.  AddRoutes keeps the caller's slice, so the option now writes into the user's table
+   and into every engine group that aliases it: a table mounted twice (or shared by two servers)
+   gets its prefixes stacked.  Expressed as another option semantics for ServerModel.run. *)
+From GZ Require Import C09.ServerModel.
+
+Fixpoint write_at {A} (l : list A) (lo : nat) (new : list A) : list A :=
+  match l, lo with
+  | [], _ => []
+  | x :: l', S lo' => x :: write_at l' lo' new
+  | x :: l', O => match new with
+                  | [] => l
+                  | y :: new' => y :: write_at l' O new'
+                  end
+  end.
+
+Fixpoint set_table (st : store) (t : nat) (l : list reg) : store :=
+  match st, t with
+  | [], _ => []
+  | _ :: st', O => l :: st'
+  | x :: st', S t' => x :: set_table st' t' l
+  end.
+
+Definition opt_inplace : optsem := fun st r o =>
+  match o with
+  | OPrefix g =>
+    match r with
+    | RAlias t lo hi =>
+      (set_table st t (write_at (table_at st t) lo (map (prefix_reg g) (deref st r))), r)
+    | RFresh l => (st, RFresh (map (prefix_reg g) l))
+    end
+  | OOther => (st, r)
+  end.
+
+Definition pin_users : list reg := [mkReg "GET" "/users/:id" 0%Z; mkReg "POST" "/users" 1%Z].
+Definition pin_mount (s : nat) (g : string) : event := EMount (mkMount s 0 0 2 false None [OPrefix g]).
+
+(* one server, the table under /v1 and /v2: the user's tables say Start succeeds and /v1/users/7
+   is dispatched; with the in-place option Start dies with a duplicate (both groups read
+   /v2/v1/...), and the user's own table has been rewritten *)
+Theorem inplace_prefix_twice_refuted :
+  exists cfgs tables evs s r,
+    one_var_name_per_position (table_of (spec_regs tables (before_start s evs) s)) = true /\
+    spec_start cfgs tables evs s = Started r /\
+    serve r "GET" "/v1/users/7" = RHandler 0%Z [("id", "7")] /\
+    start_of (wstarts (run opt_inplace cfgs tables evs)) s = Some (StartFailed RegDuplicate) /\
+    wstore (run opt_inplace cfgs tables evs) <> tables.
+Proof.
+  exists [default_cfg], [pin_users], [pin_mount 0 "/v1"; pin_mount 0 "/v2"; EStart 0], 0%nat.
+  eexists. vm_compute. repeat split; discriminate.
+Qed.
+
+(* two servers sharing the table (prefix /a on server 0, /b on server 1): no start-up error at
+   all; server 0 answers 404 where the user's tables prescribe the handler, and serves a path no
+   route was written for *)
+Theorem inplace_prefix_shared_refuted :
+  exists cfgs tables evs r_spec r_bad,
+    spec_start cfgs tables evs 0 = Started r_spec /\
+    start_of (wstarts (run opt_inplace cfgs tables evs)) 0 = Some (Started r_bad) /\
+    serve r_spec "GET" "/a/users/7" = RHandler 0%Z [("id", "7")] /\
+    serve r_bad "GET" "/a/users/7" = RNotFound /\
+    serve r_spec "GET" "/b/a/users/7" = RNotFound /\
+    serve r_bad "GET" "/b/a/users/7" = RHandler 0%Z [("id", "7")].
+Proof.
+  exists [default_cfg; default_cfg], [pin_users],
+         [pin_mount 0 "/a"; pin_mount 1 "/b"; EStart 0; EStart 1].
+  eexists. eexists. vm_compute. repeat split.
+Qed.
+
+(* with today's option the same two sequences behave as written *)
+Example real_prefix_twice :
+  exists r, start_of (wstarts (run opt_real [default_cfg] [pin_users]
+                                 [pin_mount 0 "/v1"; pin_mount 0 "/v2"; EStart 0])) 0 = Some (Started r) /\
+            serve r "GET" "/v1/users/7" = RHandler 0%Z [("id", "7")] /\
+            serve r "POST" "/v2/users" = RHandler 1%Z [] /\
+            serve r "GET" "/v2/v1/users/7" = RNotFound.
+Proof. eexists. vm_compute. repeat split. Qed.
